@@ -59,26 +59,6 @@ def f2_predicate(r):
     return r.get("n_points") is not None and r["n_points"] < 4
 
 
-def f21_predicate(r, flip):
-    """exact: the tetrahedron handed to epa is wound inward, i.e. with the rows A, B, C, D as epa receives them
-    (after the optional swap of rows 1 and 2) the normal (B-A)x(C-A) of face ABC points towards D"""
-    S = r.get("simplex")
-    if S is None or r.get("n_points") != 4:
-        return False
-    S = [[Fr(float(x)) for x in row] for row in S]
-    if flip:
-        S = [S[0], S[2], S[1], S[3]]
-    ab = [S[1][i] - S[0][i] for i in range(3)]
-    ac = [S[2][i] - S[0][i] for i in range(3)]
-    ad = [S[3][i] - S[0][i] for i in range(3)]
-    return npn._fdet(ad, ab, ac) > 0
-
-
-F21_WHAT = ("epa() builds its initial polytope from the GJK simplex without orienting it; GJK returns simplices of both "
-            "orientations, and when face ABC's normal points towards D (inward winding) the expansion does not always repair "
-            "the polytope: success=True with a vector longer than the penetration depth")
-
-
 class Judge:
     """builds the checker expressions of one success=True result"""
 
@@ -387,13 +367,10 @@ def run(tier, seed, replay=None):
                 elif i not in fails:
                     stats["ambiguous"] += 1
     # ---------------------------------------------------------------- verdicts
-    f21_cases = []
     for i, problems in fails.items():
         c, r = cases[i], results[i]
         if f2_predicate(r):
             f2_cases.append((i, problems[0]))
-        elif f21_predicate(big.get(i, r), c["ops"][0].get("flip")):
-            f21_cases.append((i, problems[0]))
         else:
             extra = " [result obtained with enlarged capacities after the default run hit max_faces]" if i in big else ""
             R.failure("; ".join(problems) + extra, dict(c, result=big.get(i, r)), site="epa.epa")
@@ -402,20 +379,12 @@ def run(tier, seed, replay=None):
         site = e.get("site", "")
         if "extend_with_point" in site:
             known.setdefault("F19", e)
-        if "_initialize_from_simplex" in site:
-            known.setdefault("F21", e)
     if f2_cases:
         if "F2" in known:
             R.known_finding("F2", f"{F2_WHAT}; {len(f2_cases)} of {len(cases)} cases this run, e.g. {f2_cases[0][1][:160]}")
         else:
             for i, what in f2_cases[:5]:
                 R.failure(what + " [GJK stopped with n_points < 4]", dict(cases[i], result=results[i]), site="gjk_distance_jolt->epa.epa")
-    if f21_cases:
-        if "F21" in known:
-            R.known_finding("F21", f"{F21_WHAT}; {len(f21_cases)} of {len(cases)} cases this run, e.g. {f21_cases[0][1][:160]}")
-        else:
-            for i, what in f21_cases[:5]:
-                R.failure(what + " [initial simplex wound inward]", dict(cases[i], result=results[i]), site="epa.Polytope._initialize_from_simplex")
     if cap_cases:
         if "F19" in known:
             R.known_finding("F19", f"{CAP_WHAT}; {len(cap_cases)} of {len(cases)} cases this run")
@@ -425,7 +394,7 @@ def run(tier, seed, replay=None):
                           dict(cases[i], result=results[i]), site="epa.Polytope.extend_with_point")
     R.cov["phase_s"] = tm
     R.cov["programs"] = len(judged)
-    R.cov["disagreements_checked"] = len(fails) + len(f2_cases) + len(cap_cases)   # f21 cases are among fails
+    R.cov["disagreements_checked"] = len(fails) + len(f2_cases) + len(cap_cases)
     R.cov["distinct_nontrivial"] = len(distinct)
     R.cov["input_histogram"] = hist
     R.cov["outcomes"] = outcome
@@ -433,7 +402,6 @@ def run(tier, seed, replay=None):
     R.cov["arms"] = dict(sorted(arms.items()))
     R.cov["f2_cases_gjk_exit_with_fewer_than_4_points"] = len(f2_cases)
     R.cov["capacity_cases_rerun_with_enlarged_limits"] = len(cap_cases)
-    R.cov["f21_cases_inward_wound_initial_simplex"] = len(f21_cases)
     if tree_nodes:
         R.cov["cone_tree_nodes"] = dict(min=min(tree_nodes), median=int(np.median(tree_nodes)), max=max(tree_nodes))
     for i in list(judged)[:3]:
